@@ -65,6 +65,14 @@ def tshVersion (t : Slice) : R Nat := do
 /-- `mpegts_crc::sum32(s)` -/
 def sum32 (s : Slice) : R Nat := Crc.sum32 s.bytes
 
+/-- header byte 3 of a transport packet (`adaptation_control()` / `continuity_counter()` derive from it) -/
+def byte3 (s : Slice) : R Nat := byteAt s.bytes 3
+
+/-- `AdaptationField::new(s)`: asserts a non-empty slice, keeps it -/
+def afNew (s : Slice) : R Slice := do
+  assertR (!s.bytes.isEmpty) "assert!(!buf.is_empty())"
+  pure s
+
 /-- panics compare equal whatever their message: `x.erase = y.erase` is "same value, or both panic" -/
 def erase {α : Type} : R α → R α
   | .ok a => .ok a
